@@ -3,6 +3,9 @@ import Holpy.C09.Proofs
 import Holpy.C09.ProofsAbs
 import Holpy.C09.ProofsAbsSound
 import Holpy.C09.ProofsSem3
+import Holpy.C09.ProofsTerm
+import Holpy.C09.ProofsMillerComplete
+import Holpy.C09.ProofsFuelMono
 /-
 C09 — property theorems (statements only; helper lemmas and the specification vocabulary
 `Ext`, `Below`, `isFO`, `SigmaOK`, `applyInst` are in Proofs.lean).
@@ -253,6 +256,89 @@ example : headOf (.comb (.svar "F" (Ty.fn Ex.nat Ex.nat)) (.var "u" Ex.nat)) = .
       (argsOf (.comb (.svar "F" (Ty.fn Ex.nat Ex.nat)) (.var "u" Ex.nat))) (.comb Ex.p (.var "u" Ex.nat))
       = .ok ⟨[], [("F", Ex.p)], [], []⟩ :=
   ⟨rfl, rfl, rfl⟩
+
+
+/-! ### termination of the recursion (the fuel of the model) -/
+
+/-- TERMINATION, first-order class (no schematic variable applied to anything; binders allowed),
+unconditional: with fuel at least twice the size of the pattern the model never answers `fuel`,
+whatever the target, the seed and the beta-normalisation fuel.  (One call per node of the pattern,
+plus one per abstraction for the eta-expansion of a target that is not an abstraction.) -/
+theorem fo_match_terminates (bf fuel : Nat) (pat t : Term) (inst : MInst) (hfo : isFOB pat = true)
+    (hfuel : 2 * termSize pat ≤ fuel) : firstOrderMatch bf fuel pat t inst ≠ .error .fuel :=
+  matchAux_fob_nofuel bf fuel [] inst pat t hfo (Or.inl hfuel)
+
+example : isFOB Ex.patB = true ∧ 2 * termSize Ex.patB ≤ 12 := ⟨rfl, by decide⟩
+
+/-- TERMINATION, higher-order patterns: the same bound `2 * size(pattern)` suffices for every
+pattern whose applied schematic variables are met uninstantiated (`Safe B pat` with `B` containing
+the names the seed binds: an applied variable is not in `B` and does not occur in the sibling
+sub-pattern) — first-order, binder, eta-expansion, Miller and heuristic branches.  Then the branch
+that beta-normalises `inst[f] a1 … an` and matches the normal form again is never entered; that
+branch is the only place where the recursion is not bounded by the pattern (its argument is a
+beta-normal form, and `beta_norm` has its own fuel), so for patterns that do re-use an applied
+variable termination is NOT proved (it would need strong normalisation of the instances).
+Also: the bindings added by a successful match are schematic variables of the pattern. -/
+theorem match_fuel_suffices (bf fuel : Nat) (pat t : Term) (inst : MInst) (B : List String) (hs : Safe B pat)
+    (hB : Dom inst B) (hfuel : 2 * termSize pat ≤ fuel) :
+    firstOrderMatch bf fuel pat t inst ≠ .error .fuel ∧
+    ∀ inst', firstOrderMatch bf fuel pat t inst = .ok inst' → DomSub inst inst' pat :=
+  matchAux_safe bf fuel [] inst pat t B hs hB (Or.inl hfuel)
+
+example : Safe [] Ex.patM ∧ Dom MInst.empty [] ∧ 2 * termSize Ex.patM ≤ 10 ∧
+    Safe [] Ex.patHO ∧ 2 * termSize Ex.patHO ≤ 20 :=
+  ⟨by simp [Ex.patM, Safe, headOf], fun m hm => by simp [MInst.empty] at hm, by decide,
+   by simp [Ex.patHO, Safe, headOf, svarNamesOf, Ex.plus], by decide⟩
+
+
+
+/-- The answer does not depend on the fuel: once the model answers anything other than `fuel`
+(an instantiation or an exception), it gives the same answer with any larger fuel — for every
+pattern, all branches.  With `match_fuel_suffices` / `fo_match_terminates`: on the patterns covered
+there the answer is the same for EVERY fuel from `2 * size(pattern)` on, i.e. it is the answer of
+the unbounded Python recursion. -/
+theorem match_fuel_independent (bf n d : Nat) (pat t : Term) (inst : MInst)
+    (h : firstOrderMatch bf n pat t inst ≠ .error .fuel) :
+    firstOrderMatch bf (n + d) pat t inst = firstOrderMatch bf n pat t inst :=
+  matchAux_fuel_le bf d n [] inst pat t h
+
+example : firstOrderMatch 10 10 Ex.pat Ex.tgt Ex.seed ≠ .error .fuel ∧
+    firstOrderMatch 10 (10 + 5) Ex.pat Ex.tgt Ex.seed = .ok Ex.res := ⟨by rw [show firstOrderMatch 10 10 Ex.pat Ex.tgt Ex.seed = .ok Ex.res from rfl]; simp, rfl⟩
+
+/-! ### completeness beyond the first-order class -/
+
+/-- COMPLETENESS OF THE MILLER BRANCH, PARTIAL: for a PURE Miller pattern `?f x1 … xn` (every
+argument the stand-in of a bound variable; the branch is entered when they are distinct and cover
+the bound variables of the target) the branch cannot fail except on the type of `?f`: if the type
+of `?f` matches `A1 ⇒ … ⇒ An ⇒ type(t)` the abstraction loop succeeds, whatever shape `t` has,
+provided the two ways the code can RAISE are excluded (`GoodFor`: no free variable of the target
+has the name of a stand-in at another type — `abstract_over: wrong type` —, and no constant
+`equals` has a non-function type — `get_info_for_fun` indexes its argument types).  Together with
+`miller_match_sound_sem` the instantiation found is `%x1 … xn. t` up to beta-eta.
+MISSING for an unconditional "if some instantiation makes the pattern beta-eta-equal to the target
+then matching succeeds": (1) arguments that are instantiated schematic variables (the code gives
+up with MatchException when such an instance is neither a variable nor the last argument of the
+target: genuinely incomplete); (2) the statement relative to an arbitrary beta-eta-equal instance
+needs a notion of beta-eta-equality on terms (only the semantic `sem` is available), so this is
+stated as "the branch succeeds", which for pure Miller patterns is equivalent because
+`%x1 … xn. t` is always an instance when the types match. -/
+theorem miller_match_complete_partial (bd : List Term) (hbd : BdOK bd) (i : MInst) (hn : String) (hT : Ty)
+    (args : List Term) (t : Term) (hargs : ∀ v ∈ args, memT v bd = true) (hg : GoodFor bd t) (tT : Ty)
+    (ht : Term.getType [] t = .ok tT)
+    (hty : ∀ Ts, argTypes bd i args = .ok Ts → ∃ i1, bindTy hT (tfun Ts tT) i = .ok i1) :
+    ∃ i', matchMiller bd i hn hT args t = .ok i' :=
+  matchMiller_complete hbd i hn hT args t hargs hg tT ht hty
+
+example : BdOK [.var "u" Ex.nat] ∧ (∀ v ∈ [Term.var "u" Ex.nat], memT v [.var "u" Ex.nat] = true) ∧
+    GoodFor [.var "u" Ex.nat] (.comb Ex.p (.var "u" Ex.nat)) ∧
+    Term.getType [] (.comb Ex.p (.var "u" Ex.nat)) = .ok Ex.nat ∧
+    (∀ Ts, argTypes [.var "u" Ex.nat] MInst.empty [.var "u" Ex.nat] = .ok Ts →
+      ∃ i1, bindTy (Ty.fn Ex.nat Ex.nat) (tfun Ts Ex.nat) MInst.empty = .ok i1) :=
+  ⟨fun w hw => by simp at hw; exact ⟨"u", Ex.nat, hw, Ex.natOK⟩, fun v hv => by simp at hv; subst hv; rfl,
+   ⟨fun U hU => by simp at hU, fun U hU => by simp at hU; exact hU.symm⟩, rfl,
+   fun Ts hTs => by
+     have : Ts = [Ex.nat] := by simpa [argTypes, memT, Term.aeq, Term.typeOfAtom, bind, Except.bind] using hTs.symm
+     subst this; exact ⟨_, rfl⟩⟩
 
 /-- First-order patterns whose schematic variables are used at their declared types `D`: if the
 seed is well-typed (every bound declared variable carries a term of its declared type under the
